@@ -60,7 +60,7 @@ func innermostLoopOf(loops []*natLoop, b *ssa.BasicBlock) *natLoop {
 // exitEdges returns the (from, to) CFG edges leaving the loop.
 func (l *natLoop) exitEdges() [][2]*ssa.BasicBlock {
 	var out [][2]*ssa.BasicBlock
-	for b := range l.Blocks {
+	for _, b := range l.ordered() {
 		for _, s := range b.Succs {
 			if !l.Blocks[s] {
 				out = append(out, [2]*ssa.BasicBlock{b, s})
@@ -109,4 +109,16 @@ func errorResultIndex(fn *ssa.Function) int {
 		return res.Len() - 1
 	}
 	return -1
+}
+
+// ordered lists the loop's blocks in the function's block order (map iteration would make any
+// "first match" depend on the run).
+func (l *natLoop) ordered() []*ssa.BasicBlock {
+	var out []*ssa.BasicBlock
+	for _, b := range l.Header.Parent().Blocks {
+		if l.Blocks[b] {
+			out = append(out, b)
+		}
+	}
+	return out
 }
